@@ -13,10 +13,8 @@
 (*                                                                         *)
 (* form is the input form the caller supplies: "f64" (numbers are float64) *)
 (* or "num" (numbers are json.Number, what the body decoders produce).  It *)
-(* matters in two places, both transcribed from the code:                  *)
-(*   - visitEnumOperation compares a json.Number at top level numerically  *)
-(*     but compound values with reflect.DeepEqual: a json.Number inside an *)
-(*     array/object never equals the float64 inside the enum member;       *)
+(* matters in one place, transcribed from the code (a second one, the enum *)
+(* comparison of numbers nested in compound values, was repaired: bc49a97): *)
 (*   - isSliceOfUniqueItems keys items by their JSON text: json.Number     *)
 (*     keeps its spelling ("1" vs "1.0"), float64 does not.                *)
 (*                                                                         *)
@@ -31,23 +29,21 @@ PermitsNull(s) == Has(s, "nullable")
 
 TypePermits(s, ty) == ~Has(s, "type") \/ s.type = ty
 
-(* reflect.DeepEqual(enum member, instance): numbers are float64 in the enum; in the instance they *)
-(* are float64 (form f64) or json.Number (form num), and a json.Number is never DeepEqual a float64 *)
+(* enumMemberEqual(enum member, instance) (repair bc49a97): as reflect.DeepEqual, except that numbers -- also those *)
+(* nested in arrays and objects -- are compared by value whichever Go type carries them (float64, json.Number, int) *)
 RECURSIVE DeepEqualGo(_, _, _)
 DeepEqualGo(e, v, form) ==
    /\ e.t = v.t
    /\ CASE e.t = "null" -> TRUE
         [] e.t = "bool" -> e.b = v.b
-        [] e.t = "num"  -> form = "f64" /\ e.q = v.q
+        [] e.t = "num"  -> e.q = v.q
         [] e.t = "str"  -> e.cs = v.cs
         [] e.t = "arr"  -> Len(e.a) = Len(v.a) /\ \A i \in DOMAIN e.a : DeepEqualGo(e.a[i], v.a[i], form)
         [] e.t = "obj"  -> e.k = v.k /\ \A i \in DOMAIN e.v : DeepEqualGo(e.v[i], v.v[i], form)
 
 EnumOK(s, v, form) ==
    ~Has(s, "enum") \/ s.enum = <<>>
-   \/ \E i \in DOMAIN s.enum :
-         IF v.t = "num" /\ form = "num" THEN s.enum[i].t = "num" /\ s.enum[i].q = v.q     \* case json.Number: v == f
-         ELSE DeepEqualGo(s.enum[i], v, form)
+   \/ \E i \in DOMAIN s.enum : DeepEqualGo(s.enum[i], v, form)
 
 (* json.Marshal text identity of array items: under form num a number keeps its spelling *)
 RECURSIVE SameJSONText(_, _, _)
